@@ -46,7 +46,7 @@ ARITH = {
     "core::ops::arith::Add": "+", "core::ops::arith::Sub": "-",
     "core::ops::arith::Mul": "*", "core::ops::arith::Div": "/",
 }
-BINOPS = {"Add": "+", "Sub": "-", "Mul": "*", "Div": "/"}
+BINOPS = {"Add": "+", "Sub": "-", "Mul": "*", "Div": "/", "Rem": "%"}
 AMOUNT = ("f64", "fpdec::Decimal")
 COMMUTATIVE = ("+", "*", "==", "and", "or")
 
@@ -67,6 +67,18 @@ def strip_ref(tk):
 
 
 # ---------------------------------------------------------------- canon
+def scalar_value(e):
+    """Value of an exported scalar ({bits, size, ty}): signed integer types are
+    decoded from two's complement."""
+    bits = int(e["bits"])
+    ty = e["ty"]["s"]
+    size = {"i8": 1, "i16": 2, "i32": 4, "i64": 8, "i128": 16, "isize": 8}.get(ty)
+    if size:
+        if bits >= 1 << (8 * size - 1):
+            bits -= 1 << (8 * size)
+    return bits
+
+
 def canon(t):
     if not isinstance(t, tuple):
         return t
@@ -279,7 +291,7 @@ class Evaluator:
             if "str" in pat:
                 c = ("str", pat["str"])
             elif "bits" in pat:
-                c = ("num", Fraction(int(pat["bits"])), pat["ty"]["s"])
+                c = ("num", Fraction(scalar_value(pat)), pat["ty"]["s"])
             else:
                 raise Unsupported("constant pattern", body["span"])
             return ("==", term, c)
@@ -500,7 +512,7 @@ class Evaluator:
         raise Unsupported("folded value " + v[0])
 
     def ev_scalar(self, e, st, depth, body):
-        yield (st.guard, "val", ("num", Fraction(int(e["bits"])), e["ty"]["s"]), st.env)
+        yield (st.guard, "val", ("num", Fraction(scalar_value(e)), e["ty"]["s"]), st.env)
 
     def ev_const(self, e, st, depth, body):
         p = e.get("resolved") or e["path"]
